@@ -2,9 +2,13 @@ package main
 
 import (
 	"fmt"
+	"math"
 	"os"
 	"sort"
 	"strings"
+	"sync"
+
+	"golang.org/x/tools/go/ssa"
 )
 
 // ---------------------------------------------------------------------------------------------
@@ -18,33 +22,36 @@ import (
 
 func init() {
 	register(&Rule{ID: "CRASH.bounded", Floor: 40,
-		Doc: "all abstract-run families are executed and every exported entry point they call is an obligation: no panic escapes from it and a (result, error) pair is never (nil, nil) nor (value, error) - over all token strings, character strings, templates, tables, scripts, symbol sets, registrations, operator / conversion / function cells of the families",
+		Doc: "all abstract-run families are executed and every exported entry point they call is an obligation: no panic escapes from it and a (result, error) pair is never (nil, nil) nor (value, error) - over all token strings, character strings, templates, tables, scripts, symbol sets, registrations, operator / conversion / function cells of the families; every operator and default function through the calculator with the real operations (default and type-safe) on boundary values of every variant type, where an evaluation that uses up the whole step budget is a termination violation",
 		Run: func(c *Ctx) []*Obligation {
 			o := newObl("CRASH.bounded")
-			// run every family (memoised)
-			c.gxRun()
-			c.geRun()
-			for _, k := range tkKinds {
-				c.tkRun(k, "base")
-				c.tkRun(k, "options")
+			// run every family (memoised); CRASHONLY=1 (debug aid) runs the calculator family of this file alone
+			if os.Getenv("CRASHONLY") == "" {
+				c.gxRun()
+				c.geRun()
+				for _, k := range tkKinds {
+					c.tkRun(k, "base")
+					c.tkRun(k, "options")
+				}
+				c.curxRun()
+				c.mapxRun()
+				c.mapdRun()
+				c.symxRun()
+				c.codecRun()
+				c.lexRun()
+				c.csvxRun()
+				c.musxRun()
+				c.namexRun()
+				c.reuseRun()
+				c.opsxRun()
+				c.convxRun()
+				c.ownRun()
+				c.funcxRun()
+				c.evxRun()
 			}
-			c.curxRun()
-			c.mapxRun()
-			c.mapdRun()
-			c.symxRun()
-			c.codecRun()
-			c.lexRun()
-			c.csvxRun()
-			c.musxRun()
-			c.namexRun()
-			c.reuseRun()
-			c.opsxRun()
-			c.convxRun()
-			c.ownRun()
-			c.funcxRun()
 			c.crashFamily()
 			if os.Getenv("CRASHDEBUG") != "" {
-				fmt.Fprintln(os.Stderr, "crash family outcomes:", crashFamKinds)
+				fmt.Fprintln(os.Stderr, "crash family outcomes:", crashFamKinds, "most steps of a returning evaluation:", crashFamMaxSteps)
 				for _, o := range crashFamOpaque {
 					fmt.Fprintln(os.Stderr, "  opaque:", o)
 				}
@@ -89,12 +96,81 @@ func (c *Ctx) coverageSummary() (entered, total int, missing []string) {
 
 var _ = strings.Join
 
-// crashFamily: the calculator with its default (real) operations and functions on every operator and
-// every default function over boundary values of every variant type; outcomes are not compared with
-// anything - the machine records what escapes (panic, (nil,nil), (value,error)).
+// crashFamily: the calculator with its real operations (the default type-unsafe manager, and the type-safe one
+// for the numeric types) and its default functions on every operator and every default function over boundary
+// values of every variant type; outcomes are not compared with anything - the machine records what escapes
+// (panic, (nil,nil), (value,error)) - except for termination: an evaluation of a three-token expression that
+// uses up the machine's whole step budget does not "terminate and return normally" (C03).
 var crashFamMemo *simpleVerdict
 var crashFamKinds = map[string]int{}
 var crashFamOpaque []string
+var crashFamMaxSteps int
+var crashFamMu sync.Mutex
+
+// crashVal: one boundary value; mk builds it on the harness's machine. core values (one or two ordinary
+// representatives per type) are paired with every value in the quick tier, every value with every value in the
+// thorough tier. old marks the values the default functions are called with in all three argument shapes.
+type crashVal struct {
+	name, text string
+	typ        string
+	core, old  bool
+	mk         func(h *vxHarness) mv
+}
+
+func crashBoundaryValues(c *Ctx) []crashVal {
+	of := func(typ string, payload interface{}) func(h *vxHarness) mv {
+		return func(h *vxHarness) mv { return h.variant(typ, payload) }
+	}
+	arr := func(mks ...func(h *vxHarness) mv) func(h *vxHarness) mv {
+		return func(h *vxHarness) mv {
+			var es []mv
+			for _, mk := range mks {
+				es = append(es, mk(h))
+			}
+			r, _ := h.m.Call(c.MustFunc(pkgVariants, "", "VariantFromArray"), mSlice{es})
+			return r
+		}
+	}
+	f32 := func(x float32) float64 { return float64(x) }
+	return []crashVal{
+		{"i0", "Integer 0", "Integer", false, true, of("Integer", int64(0))}, {"i1", "Integer 1", "Integer", true, false, of("Integer", int64(1))},
+		{"im", "Integer -1", "Integer", false, true, of("Integer", int64(-1))}, {"i2", "Integer 2", "Integer", false, false, of("Integer", int64(2))},
+		{"imax", "Integer 2147483647", "Integer", false, false, of("Integer", int64(math.MaxInt32))}, {"imin", "Integer -2147483648", "Integer", false, false, of("Integer", int64(math.MinInt32))},
+		{"ibig", "Integer 2^62", "Integer", false, true, of("Integer", int64(1)<<62)},
+		{"l7", "Long 7", "Long", true, true, of("Long", int64(7))}, {"lmax", "Long 9223372036854775807", "Long", false, false, of("Long", int64(math.MaxInt64))},
+		{"lmin", "Long -9223372036854775808", "Long", false, false, of("Long", int64(math.MinInt64))}, {"lp", "Long 2^40", "Long", false, false, of("Long", int64(1)<<40)},
+		{"f", "Float 1.5", "Float", true, true, of("Float", float64(1.5))}, {"fz", "Float -0", "Float", false, false, of("Float", math.Copysign(0, -1))},
+		{"fhuge", "Float 3.4e38", "Float", false, false, of("Float", f32(math.MaxFloat32))}, {"ftiny", "Float 1e-45", "Float", false, false, of("Float", f32(math.SmallestNonzeroFloat32))},
+		{"fnan", "Float NaN", "Float", false, false, of("Float", math.NaN())}, {"finf", "Float +Inf", "Float", false, false, of("Float", math.Inf(1))},
+		{"d0", "Double 0", "Double", true, true, of("Double", float64(0))}, {"dz", "Double -0", "Double", false, false, of("Double", math.Copysign(0, -1))},
+		{"dhalf", "Double 0.5", "Double", false, false, of("Double", float64(0.5))},
+		{"dhuge", "Double 1.8e308", "Double", false, false, of("Double", math.MaxFloat64)}, {"dtiny", "Double 5e-324", "Double", false, false, of("Double", math.SmallestNonzeroFloat64)},
+		{"dnan", "Double NaN", "Double", false, false, of("Double", math.NaN())}, {"dinf", "Double +Inf", "Double", false, false, of("Double", math.Inf(1))},
+		{"dninf", "Double -Inf", "Double", false, false, of("Double", math.Inf(-1))},
+		{"s", "String \"aж\"", "String", true, true, of("String", lit("aж"))}, {"e", "String \"\"", "String", false, true, of("String", lit(""))},
+		{"snum", "String \"12\"", "String", false, false, of("String", lit("12"))}, {"slong", "String \"99999999999999999999\"", "String", false, false, of("String", lit("99999999999999999999"))},
+		{"t", "Boolean true", "Boolean", true, true, of("Boolean", true)}, {"bf", "Boolean false", "Boolean", false, false, of("Boolean", false)},
+		{"n", "Null", "Null", true, true, of("Null", nil)},
+		{"ts", "TimeSpan 1500ns", "TimeSpan", true, true, of("TimeSpan", int64(1500))}, {"ts0", "TimeSpan 0", "TimeSpan", false, false, of("TimeSpan", int64(0))},
+		{"tsmax", "TimeSpan 2^63-1 ns", "TimeSpan", false, false, of("TimeSpan", int64(math.MaxInt64))}, {"tsmin", "TimeSpan -2^63 ns", "TimeSpan", false, false, of("TimeSpan", int64(math.MinInt64))},
+		{"dt", "DateTime t0", "DateTime", true, true, of("DateTime", "t0")},
+		{"arr", "Array [1 2]", "Array", true, true, arr(of("Integer", int64(1)), of("Integer", int64(2)))}, {"emp", "Array []", "Array", false, true, arr()},
+		{"amix", "Array [Null \"a\" [1]]", "Array", false, false, arr(of("Null", nil), of("String", lit("a")), arr(of("Integer", int64(1))))},
+		{"obj", "Object o", "Object", false, true, of("Object", "o")},
+		// text made of characters that are special in patterns and formats
+		{"meta", "String \"f(x[*+?{2,1}\\\"", "String", false, true, of("String", lit("f(x[*+?{2,1}\\"))}, {"pct", "String \"%_%s%d\"", "String", false, true, of("String", lit("%_%s%d"))},
+	}
+}
+
+// crashNote records a witness against an entry point (the shortest one is kept).
+func crashNote(m *mach, fn *ssa.Function, witness string) {
+	e := crashEntryOf(m, fn)
+	crashMu.Lock()
+	if e.first == "" || len(witness) < len(e.first) {
+		e.first = witness
+	}
+	crashMu.Unlock()
+}
 
 func (c *Ctx) crashFamily() *simpleVerdict {
 	if crashFamMemo != nil {
@@ -112,43 +188,40 @@ func (c *Ctx) crashFamily() *simpleVerdict {
 	ct := resultType(cctor)
 	vc := c.MustFunc("calculator/variables", "", "NewVariableCollection")
 	newVar := c.MustFunc("calculator/variables", "", "NewVariable")
-	type val struct {
-		name string
-		mk   func() mv
+	vals := crashBoundaryValues(c)
+	byName := map[string]*crashVal{}
+	for i := range vals {
+		byName[vals[i].name] = &vals[i]
 	}
-	arr := func(ns ...int64) func() mv {
-		return func() mv {
-			var es []mv
-			for _, n := range ns {
-				es = append(es, h.variant("Integer", n))
+	thorough := c.Tier == "thorough"
+	numeric := map[string]bool{"Integer": true, "Long": true, "Float": true, "Double": true}
+	type job struct {
+		expr string
+		safe bool // evaluated with the type-safe operations
+	}
+	var jobs []job
+	binary := func(a, b string, safe bool) {
+		for _, op := range gxBinaryLexemes {
+			jobs = append(jobs, job{a + " " + op + " " + b, safe})
+			if op == "LIKE" {
+				jobs = append(jobs, job{a + " NOT LIKE " + b, safe})
 			}
-			r, _ := m.Call(c.MustFunc(pkgVariants, "", "VariantFromArray"), mSlice{es})
-			return r
 		}
+		jobs = append(jobs, job{a + " [ " + b + " ]", safe}, job{a + " NOT IN " + b, safe})
 	}
-	vals := []val{
-		{"i0", func() mv { return h.variant("Integer", int64(0)) }}, {"im", func() mv { return h.variant("Integer", int64(-1)) }},
-		{"ibig", func() mv { return h.variant("Integer", int64(1)<<62) }}, {"l7", func() mv { return h.variant("Long", int64(7)) }},
-		{"f", func() mv { return h.variant("Float", float64(1.5)) }}, {"d0", func() mv { return h.variant("Double", float64(0)) }},
-		{"s", func() mv { return h.variant("String", lit("aж")) }}, {"e", func() mv { return h.variant("String", lit("")) }},
-		{"t", func() mv { return h.variant("Boolean", true) }}, {"n", func() mv { return h.variant("Null", nil) }},
-		{"ts", func() mv { return h.variant("TimeSpan", int64(1500)) }}, {"dt", func() mv { return h.variant("DateTime", "t0") }},
-		{"arr", arr(1, 2)}, {"emp", arr()}, {"obj", func() mv { return h.variant("Object", "o") }},
-		// text made of characters that are special in patterns and formats
-		{"meta", func() mv { return h.variant("String", lit("f(x[*+?{2,1}\\")) }}, {"pct", func() mv { return h.variant("String", lit("%_%s%d")) }},
-	}
-	var exprs []string
 	for _, a := range vals {
 		for _, b := range vals {
-			for _, op := range gxBinaryLexemes {
-				exprs = append(exprs, a.name+" "+op+" "+b.name)
-				if op == "LIKE" {
-					exprs = append(exprs, a.name+" NOT LIKE "+b.name)
-				}
+			if thorough || a.core || b.core || (a.old && b.old) {
+				binary(a.name, b.name, false)
 			}
-			exprs = append(exprs, a.name+" [ "+b.name+" ]", a.name+" NOT IN "+b.name)
+			// the type-safe manager refuses most mixed pairs at once: the numeric types among themselves, and equal types
+			if (numeric[a.typ] && numeric[b.typ] || a.typ == b.typ) && (thorough || a.core || b.core) {
+				binary(a.name, b.name, true)
+			}
 		}
-		exprs = append(exprs, "- "+a.name, "NOT "+a.name, a.name+" IS NULL", a.name+" [ 5 ]", a.name+" [ - 1 ]", "1 / "+a.name, "1 << "+a.name)
+		for _, e := range []string{"- " + a.name, "NOT " + a.name, a.name + " IS NULL", a.name + " [ 5 ]", a.name + " [ - 1 ]", "1 / " + a.name, "1 << " + a.name} {
+			jobs = append(jobs, job{e, false}, job{e, true})
+		}
 	}
 	var fnames []string
 	for n := range funcArityOracle {
@@ -156,46 +229,106 @@ func (c *Ctx) crashFamily() *simpleVerdict {
 	}
 	sort.Strings(fnames)
 	for _, f := range fnames {
-		exprs = append(exprs, f+" ( )")
+		jobs = append(jobs, job{f + " ( )", false})
 		for _, a := range vals {
-			exprs = append(exprs, f+" ( "+a.name+" )", f+" ( "+a.name+" , s )", f+" ( i0 , "+a.name+" , arr )")
+			jobs = append(jobs, job{f + " ( " + a.name + " )", false})
+			if a.old || thorough {
+				jobs = append(jobs, job{f + " ( " + a.name + " , s )", false}, job{f + " ( i0 , " + a.name + " , arr )", false})
+			}
 		}
 	}
-	calc, out := m.Call(cctor)
-	if out.kind != "ok" {
-		v.undec = "NewExpressionCalculator: " + out.why
-		return v
+	nw := 4
+	var wg sync.WaitGroup
+	for w := 0; w < nw; w++ {
+		wg.Add(1)
+		go func(w int) {
+			defer wg.Done()
+			h := c.newVxHarness("TypeUnsafeVariantOperations")
+			if h.fault != "" {
+				return
+			}
+			m := h.m
+			calcs := map[bool]mv{}
+			for _, safe := range []bool{false, true} {
+				calc, out := m.Call(cctor)
+				if out.kind != "ok" {
+					crashFamMu.Lock()
+					v.undec = "NewExpressionCalculator: " + out.why
+					crashFamMu.Unlock()
+					return
+				}
+				if safe {
+					ops, out := m.Call(c.MustFunc(pkgVariants, "", "NewTypeSafeVariantOperations"))
+					if out.kind != "ok" {
+						continue
+					}
+					callM(c, m, ct, "SetVariantOperations", calc, mIface{t: resultType(c.MustFunc(pkgVariants, "", "NewTypeSafeVariantOperations")), v: ops})
+				}
+				calcs[safe] = calc
+			}
+			newTok := c.MustFunc("tokenizers", "", "NewToken")
+			ttype := map[string]int64{}
+			for _, n := range []string{"Word", "Keyword", "Symbol", "Integer", "Float"} {
+				ttype[n], _ = c.constByName("tokenizers", n)
+			}
+			evalFn := c.lookupMethod(ct, "EvaluateUsingVariables")
+			for i := w; i < len(jobs); i += nw {
+				e, calc := jobs[i].expr, calcs[jobs[i].safe]
+				if calc == nil {
+					continue
+				}
+				m.steps = 0
+				vars, _ := m.Call(vc)
+				ls := lexemes(e)
+				var bound []string
+				seen := map[string]bool{}
+				for _, l := range ls {
+					if a := byName[l.text]; a != nil && l.typ == "Word" && !seen[a.name] {
+						seen[a.name] = true
+						bound = append(bound, a.name+" = "+a.text)
+						vr, _ := m.Call(newVar, a.name, a.mk(h))
+						callM(c, m, resultType(vc), "Add", vars, mIface{t: resultType(newVar), v: vr})
+					}
+				}
+				var toks []mv
+				for i, l := range ls {
+					t, _ := m.Call(newTok, ttype[l.typ], l.text, int64(1), int64(i+1))
+					toks = append(toks, t)
+				}
+				if _, out := callM(c, m, ct, "SetOriginalTokens", calc, mSlice{toks}); out.kind == "opaque" {
+					crashFamMu.Lock()
+					v.runs++
+					crashFamKinds["set:opaque"]++
+					crashFamMu.Unlock()
+					continue
+				}
+				m.steps = 0
+				_, eo := m.Call(evalFn, calc, mIface{t: resultType(vc), v: vars})
+				crashFamMu.Lock()
+				v.runs++
+				crashFamKinds[eo.kind]++
+				if eo.kind == "ok" && m.steps > crashFamMaxSteps {
+					crashFamMaxSteps = m.steps
+				}
+				if eo.kind == "opaque" && len(crashFamOpaque) < 40 {
+					crashFamOpaque = append(crashFamOpaque, e+": "+eo.why)
+				}
+				crashFamMu.Unlock()
+				if eo.kind == "opaque" && strings.Contains(eo.why, "exceeds its step budget") {
+					// not a construct outside the model: every operand is a constant of the family, and the run just does not end
+					mgr := "default (type-unsafe)"
+					if jobs[i].safe {
+						mgr = "type-safe"
+					}
+					crashNote(m, evalFn, fmt.Sprintf("EvaluateUsingVariables on ‹%s› with %s and the %s operations does not return: %s after %d abstract steps (the evaluations of this family that return take about a thousand) - setting and evaluating an expression must terminate and return a result or an error for boundary values of every supported type", e, strings.Join(bound, ", "), mgr, eo.why, m.maxSteps))
+				}
+				if i%97 == 0 {
+					noteSample("CRASH.bounded/evaluate-with-real-operations", e)
+				}
+			}
+		}(w)
 	}
-	newTok := c.MustFunc("tokenizers", "", "NewToken")
-	ttype := map[string]int64{}
-	for _, n := range []string{"Word", "Keyword", "Symbol", "Integer"} {
-		ttype[n], _ = c.constByName("tokenizers", n)
-	}
-	for _, e := range exprs {
-		m.steps = 0
-		v.runs++
-		vars, _ := m.Call(vc)
-		for _, a := range vals {
-			vr, _ := m.Call(newVar, a.name, a.mk())
-			callM(c, m, resultType(vc), "Add", vars, mIface{t: resultType(newVar), v: vr})
-		}
-		var toks []mv
-		for i, l := range lexemes(e) {
-			t, _ := m.Call(newTok, ttype[l.typ], l.text, int64(1), int64(i+1))
-			toks = append(toks, t)
-		}
-		if _, out := callM(c, m, ct, "SetOriginalTokens", calc, mSlice{toks}); out.kind == "opaque" {
-			continue
-		}
-		_, eo := callM(c, m, ct, "EvaluateUsingVariables", calc, mIface{t: resultType(vc), v: vars})
-		crashFamKinds[eo.kind]++
-		if eo.kind == "opaque" && len(crashFamOpaque) < 12 {
-			crashFamOpaque = append(crashFamOpaque, e+": "+eo.why)
-		}
-		if v.runs%97 == 0 {
-			noteSample("CRASH.bounded/evaluate-with-default-operations", e)
-		}
-	}
+	wg.Wait()
 	// the text entry point of the calculator (automatic variables on and off): setting and evaluating texts
 	// with empty, unterminated and unusual lexemes; then the same after the variables were cleared
 	texts := []string{`""`, `"" + 1`, `Abs("")`, `''`, `'`, `"`, `"a`, `'a' + "b"`, `x`, `NOT x`, `x AND y`, `x [ 0 ]`, `Array(x, y)[0]`, `x + y * 2`, `-x`, `x IS NULL`,
